@@ -201,6 +201,8 @@ type tgenOpts struct {
 	Requiredness  bool // mix required/optional (otherwise all default-requiredness)
 	Recursive     bool
 	JSConv        bool
+	// JSConvScalars: api.js_conv only on scalar fields (the JSON->Thrift side of the mapping has no list form)
+	JSConvScalars bool
 	NoSet         bool
 	NoBinary      bool
 	StructMapKeys bool
@@ -440,7 +442,7 @@ func (g *tgen) newStruct(depth int) *TStruct {
 				f.Anno = " (api.key = " + idlQuote(f.Alias) + ")"
 			}
 		}
-		if g.o.JSConv && f.Anno == "" && jsConvType(f.T) && g.t.Chance(1, 4, "field.jsconv") {
+		if g.o.JSConv && f.Anno == "" && jsConvType(f.T) && !(g.o.JSConvScalars && f.T.Kind == tLIST) && g.t.Chance(1, 4, "field.jsconv") {
 			f.JSConv = true
 			f.Anno = ` (api.js_conv = "true")`
 		}
